@@ -15,6 +15,11 @@ package protocol
 //@   modifies shared
 //@   ensures result1 == nil ==> result0 != nil
 
+// The header filter (C09): exactly the messages of this session, for this party, of a round not yet passed.
+//@ pred canacc(h *MultiHandler, msg *Message) := msg != nil && msg.From != h.currentRound.SelfID() && (msg.To == "" || msg.To == h.currentRound.SelfID()) && msg.Protocol == h.currentRound.ProtocolID() && bytes_eq(msg.SSID, h.currentRound.SSID()) && ids_contains(h.currentRound.PartyIDs(), msg.From) && msg.Data != nil && msg.RoundNumber <= h.currentRound.FinalRoundNumber() && !(msg.RoundNumber < h.currentRound.Number() && msg.RoundNumber > 0)
+// A message for whose (round, sender, kind) slot something is already stored, or for which no slot exists (C07).
+//@ pred dupl(h *MultiHandler, msg *Message) := msg.RoundNumber != 0 && ((msg.Broadcast && (h.broadcast[msg.RoundNumber] == nil || h.broadcast[msg.RoundNumber][msg.From] != nil)) || (!msg.Broadcast && (h.messages[msg.RoundNumber] == nil || h.messages[msg.RoundNumber][msg.From] != nil)))
+
 //@ guarded_by[C17] MultiHandler.mtx: currentRound, rounds, err, result, messages, broadcast, broadcastHashes
 //@ lockinv[C17] MultiHandler.mtx := hinv(self)
 
@@ -42,31 +47,38 @@ package protocol
 //@   nopanic[C05,C17]
 //@   requires h != nil && !excl(h.mtx)
 //@   ensures[C17] !excl(h.mtx)
+//@   ensures[C09] result == atlock(canacc(h, msg))
+//@   ensures[C09,C07] nochange()
 
 //@ func (*MultiHandler).canAccept
 //@   nopanic[C05,C17]
 //@   requires h != nil && excl(h.mtx) && hshape(h)
 //@   modifies nothing
-//@   ensures result ==> msg != nil
+//@   ensures[C09] result == canacc(h, msg)
 
 //@ func (*MultiHandler).Accept
 //@   nopanic[C05,C17]
 //@   requires h != nil && !excl(h.mtx)
 //@   ensures[C17] !excl(h.mtx)
+//@   ensures[C09] atlock(!canacc(h, msg)) ==> nochange()
+//@   ensures[C07,C17] atlock(canacc(h, msg) && (fin(h) || dupl(h, msg))) ==> nochange()
+//@   ensures[C04] (!called(finalize) && h.err != nil && atlock(h.err) == nil) ==> (len(h.err.Culprits) == 1 && h.err.Culprits[0] == msg.From)
 //@   ensures[C17] atlock(fin(h)) ==> (h.err == atlock(h.err) && h.result == atlock(h.result))
 
 //@ func (*MultiHandler).abort
 //@   nopanic[C05,C17]
 //@   requires h != nil && excl(h.mtx) && hshape(h) && !closed(h.out)
-//@   modifies MultiHandler.err, chans, Error.*, Message.*
+//@   modifies MultiHandler.err, chans
 //@   ensures[C17] closed(h.out)
 //@   ensures[C17] err != nil ==> h.err != nil
+//@   ensures[C04] err != nil ==> (h.err.Culprits == culprits && h.err.Err == err)
 //@   ensures[C17] err == nil ==> h.err == old(h.err)
 
 //@ func (*MultiHandler).duplicate
 //@   nopanic[C05,C17]
 //@   requires h != nil && excl(h.mtx) && msg != nil
 //@   modifies nothing
+//@   ensures[C07] result == dupl(h, msg)
 
 //@ func (*MultiHandler).store
 //@   nopanic[C05,C17]
@@ -94,10 +106,19 @@ package protocol
 //@   loop 1: invariant each(h.currentRound.PartyIDs()[:rangeindex+1], id, h.broadcast[h.currentRound.Number()][id] != nil)
 //@   loop 2: invariant each(h.currentRound.PartyIDs(), id, h.broadcast[h.currentRound.Number()][id] != nil)
 
+// Echo broadcast (C06): with a view hash recorded for the previous round, success means that every stored
+// point-to-point and broadcast message of the current round carries exactly that hash.
 //@ func (*MultiHandler).checkBroadcastHash
 //@   nopanic[C05,C17]
 //@   requires h != nil && excl(h.mtx) && hshape(h)
 //@   modifies nothing
+//@   let num = h.currentRound.Number()
+//@   let prev = h.broadcastHashes[ite(h.currentRound.Number() > 0, h.currentRound.Number()-1, 65535)]
+//@   ensures[C06] (result && prev != nil) ==> forall(j, party.ID, h.messages[num][j] != nil ==> bytes_eq(prev, h.messages[num][j].BroadcastVerification))
+//@   ensures[C06] (result && prev != nil) ==> forall(j, party.ID, h.broadcast[num][j] != nil ==> bytes_eq(prev, h.broadcast[num][j].BroadcastVerification))
+//@   loop 1: invariant forall(j, party.ID, visited(1, j) && h.messages[num][j] != nil ==> bytes_eq(prev, h.messages[num][j].BroadcastVerification))
+//@   loop 2: invariant forall(j, party.ID, h.messages[num][j] != nil ==> bytes_eq(prev, h.messages[num][j].BroadcastVerification))
+//@   loop 2: invariant forall(j, party.ID, visited(2, j) && h.broadcast[num][j] != nil ==> bytes_eq(prev, h.broadcast[num][j].BroadcastVerification))
 
 //@ func unmarshalContent
 //@   nopanic[C05]
@@ -117,6 +138,11 @@ package protocol
 //@   requires h != nil && excl(h.mtx) && hopen(h)
 //@   modifies all
 //@   ensures[C17] hinv(h) && excl(h.mtx)
+//@   assert_at[C06] Finalize "h.currentRound.Finalize(out)": lastresult(receivedAll) && lastresult(checkBroadcastHash)
+//@   assert_at[C06] send "h.out <- msg": r.Number() > 0 ==> msg.BroadcastVerification == h.broadcastHashes[r.Number()-1]
+//@   assert_at[C04] abort "broadcast verification failed": len(arg2) == 0
+//@   assert_at[C04] abort "h.abort(R.Err, R.Culprits...)": arg2 == R.Culprits && arg1 == R.Err
+//@   assert_at[C04] abort "h.abort(err, m.From)": len(arg2) == 1 && arg2[0] == m.From
 //@   loop 1: invariant !closed(h.out)
 //@   loop 1: invariant h.err == nil && h.result == nil
 //@   loop 1: invariant hshape(h)
